@@ -97,6 +97,149 @@ estimate_point = Contract(
 )
 
 
+# ------------------------------------------------------------------ the stress balance handed to the root finder
+import pyvc.terms as _T
+from pyvc.values import Arr as _Arr
+
+
+def _same(x, y):
+    return x is y or (hasattr(x, "id") and hasattr(y, "id") and x.id == y.id)
+
+
+class _WindInputModel:
+    """wind_source_term_function(variance_density, wind, depth, roughness_length, spectral_grid, parameters, work_array): some field"""
+
+    def __call__(self, interp, st, args, kwargs):
+        st.ghost["wind_input_calls"] = st.ghost.get("wind_input_calls", ()) + (tuple(args),)
+        shp = st.deref(args[0]).shape
+        return st.alloc(_T_sym_array("wind_input_field", shp), "generation")
+
+
+def _T_sym_array(name, shp):
+    from pyvc.values import sym_array
+    return sym_array(_T.Fresh.name(name), shp)
+
+
+def _total_stress_result(mk, a):
+    r = (mk.real("total_stress"), mk.real("total_stress_direction"))
+    mk.st.ghost["total_stress_call"] = (a, r)
+    return r
+
+
+TOTAL_STRESS = CalleeContract(B + "stress.py::_total_stress_point", _total_stress_result, assumed=True,
+                              note="total (wave-supported + tail + viscous) stress magnitude and direction at the given roughness: some reals here")
+BAL_PARAMS = ["vonkarman_constant", "elevation", "air_density"]
+
+
+def _p_balance(wtype):
+    def p(mk):
+        nf, nd = mk.size("nf"), mk.size("nd")
+        return {"log_roughness_length": mk.real("log_z0"), "variance_density": mk.array("E", (nf, nd)), "wind": (mk.real("U"), mk.real("wdir"), wtype),
+                "depth": mk.real("depth"), "wind_source_term_function": _WindInputModel(), "tail_stress_parametrization_function": Opaque("tail"),
+                "spectral_grid": Opaque("spectral_grid"), "parameters": mk.record("parameters", {k: "real" for k in BAL_PARAMS}),
+                "work_array": mk.array("work", (nf, nd))}
+    return p
+
+
+def _balance_post(a, r):
+    ca, (ts, td) = a._ghost["total_stress_call"]
+    z0 = exp(a.log_roughness_length)
+    par = a.parameters
+    ustar = a.wind[0] * par["vonkarman_constant"] / log(par["elevation"] / z0) if a.wind[2] == "u10" else a.wind[0]
+    raw = a._raw
+    return And(eq(r, par["air_density"] * ustar * ustar - ts),
+               eq(ca.roughness_length, z0), _same(ca.variance_density, raw["variance_density"]), _same(ca.depth, raw["depth"]) or eq(ca.depth, a.depth),
+               eq(ca.wind[0], a.wind[0]), eq(ca.wind[1], a.wind[1]), ca.wind[2] == a.wind[2],
+               _same(ca.wind_source_term_function, raw["wind_source_term_function"]),
+               _same(ca.tail_stress_parametrization_function, raw["tail_stress_parametrization_function"]),
+               _same(ca.spectral_grid, raw["spectral_grid"]), _same(ca.parameters, raw["parameters"]))
+
+
+stress_balance = Contract(
+    B + "stress.py::_stress_iteration_function", instances=[(w, _p_balance(w)) for w in ("u10", "friction_velocity")],
+    requires=[("dims", lambda a: And(a.variance_density.shape[0] >= 0, a.variance_density.shape[1] >= 0))],
+    ensures=[("air_density_ustar_squared_minus_total_stress_at_this_roughness", _balance_post)],
+    callees={TOTAL_STRESS.target: TOTAL_STRESS},
+)
+
+
+# the total stress: wave-supported + tail (callee) plus the viscous stress along the wind
+def _wss_result(mk, a):
+    r = (mk.real("stress_east"), mk.real("stress_north"))
+    mk.st.ghost["wss_call"] = (a, r)
+    return r
+
+
+WSS = CalleeContract(B + "stress.py::_wave_supported_stress_point", _wss_result, assumed=True,
+                     note="east / north components of the wave-supported + tail stress: some reals here (C08/C09 cover their ingredients)")
+TS_PARAMS = ["vonkarman_constant", "elevation", "air_density", "viscous_stress_parameter", "air_viscosity"]
+
+
+def _p_total(wtype):
+    def p(mk):
+        nf, nd = mk.size("nf"), mk.size("nd")
+        return {"roughness_length": mk.real("z0"), "variance_density": mk.array("E", (nf, nd)), "wind": (mk.real("U"), mk.real("wdir"), wtype),
+                "depth": mk.real("depth"), "wind_source_term_function": _WindInputModel(), "tail_stress_parametrization_function": Opaque("tail"),
+                "spectral_grid": Opaque("spectral_grid"), "parameters": mk.record("parameters", {k: "real" for k in TS_PARAMS}), "work_array": None}
+    return p
+
+
+def _total_post(a, r):
+    par = a.parameters
+    ustar = a.wind[0] * par["vonkarman_constant"] / log(par["elevation"] / a.roughness_length) if a.wind[2] == "u10" else a.wind[0]
+    if "wss_call" not in a._ghost:
+        return And(eq(ustar, 0), eq(r[0], 0), _is_nan(r[1]))
+    ca, (se, sn) = a._ghost["wss_call"]
+    visc = par["viscous_stress_parameter"] * par["air_density"] * ustar * par["air_viscosity"] / par["vonkarman_constant"] / a.roughness_length
+    wr = a.wind[1] * _T.PI / 180
+    n2, e2 = sn + visc * _T.uf("sin", wr), se + visc * _T.uf("cos", wr)
+    return And(eq(r[0], sqrt(n2 * n2 + e2 * e2)), eq(r[1], mod(_T.UF2["arctan2"](_T.to_z3(n2), _T.to_z3(e2)) * 180 / _T.PI, 360)),
+               eq(ca.roughness_length, a.roughness_length), _same(ca.variance_density, a._raw["variance_density"]), eq(ca.wind[0], a.wind[0]),
+               eq(ca.wind[1], a.wind[1]), ca.wind[2] == a.wind[2])
+
+
+total_stress = Contract(
+    B + "stress.py::_total_stress_point", instances=[(w, _p_total(w)) for w in ("u10", "friction_velocity")],
+    requires=[("dims", lambda a: And(a.variance_density.shape[0] >= 0, a.variance_density.shape[1] >= 0)), ("roughness", lambda a: a.roughness_length > 0)],
+    ensures=[("vector_sum_of_wave_supported_and_viscous_stress_magnitude_and_direction", _total_post)],
+    callees={WSS.target: WSS},
+)
+
+
+# the estimate hands exactly this balance to the root finder, on the search interval (e^-20, 1), and returns exp(root)
+def _newton_recording(mk, a):
+    r = mk.real("log_root")
+    mk.st.ghost["solver_call"] = (a, r)
+    return r
+
+
+NEWTON_REC = CalleeContract(B + "solvers.py::numba_newton_raphson", _newton_recording, assumed=True,
+                            note="the hybrid Newton solver returns a finite real (or raises); nothing about its value is assumed; its arguments are recorded")
+
+
+def _estimate_wiring(a, r):
+    if "solver_call" not in a._ghost:
+        return True                       # NaN exits before the solver (missing spectrum values, zero wind)
+    ca, root = a._ghost["solver_call"]
+    fa = ca.function_arguments
+    raw = a._raw
+    return And(getattr(ca.function, "qualname", "") == "_stress_iteration_function", _same(fa[0], raw["variance_density"]),
+               eq(fa[1][0], a.wind[0]), eq(fa[1][1], a.wind[1]), fa[1][2] == a.wind[2], eq(fa[2], a.depth), fa[3] is raw["wind_source_term_function"],
+               fa[4] is raw["tail_stress_parametrization_function"], _same(fa[5], raw["spectral_grid"]), _same(fa[6], raw["parameters"]),
+               ca.hard_bounds[0] == -20, ca.hard_bounds[1] == 0, eq(r, exp(root)))
+
+
+estimate_wiring = Contract(
+    B + "stress.py::_roughness_estimate_point",
+    instances=[(w, _p_estimate(w)) for w in ("u10", "friction_velocity")],
+    requires=[("dims", lambda a: And(a.variance_density.shape[0] >= 0, a.variance_density.shape[1] >= 0))],
+    ensures=[("solver_is_given_the_stress_balance_of_this_spectrum_and_wind_on_the_search_interval_and_exp_of_its_root_is_returned", _estimate_wiring)],
+    raises={"ValueError": lambda a: False},
+    callees={NEWTON_REC.target: NEWTON_REC},
+    label="_roughness_estimate_point.wiring",
+)
+
+
 # ------------------------------------------------------------------ bounded: Charnock implicit equation on the real functions
 def _bounded_charnock(tier, seed):
     import warnings
@@ -174,8 +317,101 @@ def _bounded_charnock(tier, seed):
                        "DataArray; oracle |alpha u*^2/g + c nu/u* - z0| <= 1e-4 max(z0,1e-4) at the returned z0, Cd = (kappa/ln(10/z0))^2, NaN<->NaN, increasing in U without viscous term")}
 
 
-BOUNDED = [Bounded("charnock.implicit_equation", _bounded_charnock, "residual of the implicit Charnock equation at the returned roughness; NaN handling; monotonicity")]
-CONTRACTS = [drag, wu, charnock_point, estimate_point]
+def _bounded_janssen(tier, seed):
+    """wave-dependent roughness on the compiled code: NaN or positive; where an independent scan of the stress balance over (e^-20, 1) m shows a
+    single sign change, the returned roughness closes rho_air u*^2 = total stress to 1e-4 relative.  Winds aligned with, oblique to and opposing
+    the waves; U10 and friction-velocity forcing; deep and finite depth."""
+    import numpy as np
+    import warnings
+    import xarray
+    warnings.filterwarnings("ignore")
+    from ocean_science_utilities.wavespectra.spectrum import create_2d_spectrum
+    from ocean_science_utilities.wavephysics.balance.st4_wind_input import ST4WindInput
+    rng = np.random.default_rng(seed + 23)
+    n_spec = 3 if tier == "quick" else 12
+    f = np.linspace(0.04, 0.8, 30)
+    d = np.linspace(0, 360, 24, endpoint=False)
+    gen = ST4WindInput()
+    par = gen.parameters
+    rho, kap, elev = float(par["air_density"]), float(par["vonkarman_constant"]), float(par["elevation"])
+    fails, evals, closed, nans, samples = [], 0, 0, 0, []
+    logz = np.linspace(-19.5, -0.5, 77)
+    for k in range(n_spec):
+        fp, md = rng.uniform(0.1, 0.25), rng.uniform(0, 360)
+        E1 = (f / fp) ** -5 * np.exp(-1.25 * (f / fp) ** -4) * rng.uniform(0.3, 2.0)
+        D = np.abs(np.cos(np.radians(d - md) / 2)) ** (2 * rng.uniform(3, 10))
+        offsets = np.array([0.0, 25.0, -40.0, 70.0, 120.0, 180.0])                 # wind relative to the waves: aligned, oblique, opposing
+        npnt = len(offsets)
+        E = np.broadcast_to((E1[:, None] * D[None, :])[None], (npnt, len(f), len(d))).copy()
+        depth = np.full(npnt, np.inf) if k % 2 == 0 else np.full(npnt, rng.uniform(15, 60))
+        spec = create_2d_spectrum(f, d, E, np.arange(npnt) * 3600.0, np.zeros(npnt), np.zeros(npnt), depth=depth)
+        for wtype in ("u10", "friction_velocity"):
+            speed = rng.uniform(5, 25, npnt) if wtype == "u10" else rng.uniform(0.15, 1.0, npnt)
+            U = xarray.DataArray(speed, dims=["time"])
+            Ud = xarray.DataArray((md + offsets) % 360, dims=["time"])
+            try:
+                z0 = gen.roughness(U, Ud, spec, wind_speed_input_type=wtype).values
+            except Exception as e:
+                evals += 1
+                # which member?  (each alone)
+                culprit = []
+                for p in range(npnt):
+                    sp1 = create_2d_spectrum(f, d, E[p:p + 1], np.array([0.0]), np.zeros(1), np.zeros(1), depth=depth[p:p + 1])
+                    try:
+                        gen.roughness(xarray.DataArray(speed[p:p + 1], dims=["time"]), xarray.DataArray(Ud.values[p:p + 1], dims=["time"]), sp1, wind_speed_input_type=wtype)
+                    except Exception:
+                        culprit.append({"wind_offset": float(offsets[p]), "speed": float(speed[p]), "depth": float(depth[p])})
+                fails.append({"what": "roughness raised instead of returning NaN or a positive length", "error": repr(e)[:200], "wind_type": wtype, "spectrum": k,
+                              "peak_frequency": float(fp), "wave_direction": float(md), "level": float(E1.max()), "members_that_raise_alone": culprit[:3]})
+                continue
+
+            def balance(zz):
+                st = gen.stress(spec, U, Ud, roughness_length=xarray.DataArray(zz, dims=["time"]), wind_speed_input_type=wtype)["stress"].values
+                us = speed * kap / np.log(elev / zz) if wtype == "u10" else speed
+                return rho * us ** 2 - st, rho * us ** 2
+            def scan_at(lz):
+                try:
+                    return balance(np.full(npnt, np.exp(lz)))[0]
+                except Exception:
+                    return np.full(npnt, np.nan)      # the stress itself is not evaluable at this roughness (tail-stress solver): case skipped below
+            scan = np.stack([scan_at(lz) for lz in logz], axis=1)
+            for p in range(npnt):
+                evals += 1
+                case = {"spectrum": k, "peak_frequency": float(fp), "wave_direction": float(md), "wind_offset": float(offsets[p]), "wind_type": wtype,
+                        "speed": float(speed[p]), "depth": float(depth[p]), "z0": float(z0[p])}
+                if np.isnan(z0[p]):
+                    nans += 1
+                    continue
+                if not (z0[p] > 0 and np.isfinite(z0[p])):
+                    fails.append(dict(case, what="roughness is neither NaN nor a positive length"))
+                    continue
+                row = scan[p]
+                ok = np.isfinite(row)
+                changes = int(np.sum((row[:-1] * row[1:] < 0) & ok[:-1] & ok[1:]))
+                if changes != 1 or ok.sum() < 40:
+                    continue          # no single root visible in the scan (or the stress is mostly not evaluable there)
+                zz = np.where(np.arange(npnt) == p, z0[p], 1e-4)
+                try:
+                    res, scale = balance(zz)
+                except Exception as e:
+                    fails.append(dict(case, what="stress not evaluable at the returned roughness", error=repr(e)[:120]))
+                    continue
+                if abs(res[p]) <= 1e-4 * scale[p]:
+                    closed += 1
+                else:
+                    fails.append(dict(case, what="returned roughness does not close rho_air u*^2 = total stress (1e-4 relative)", relative_residual=float(abs(res[p]) / scale[p])))
+                if len(samples) < 3:
+                    samples.append(case)
+    if closed == 0:
+        fails.append({"what": "no case with a single root and a finite roughness in the whole domain (vacuous)", "evaluations": evals})
+    return {"evaluations": evals, "distinct": evals, "failures": fails[:6], "samples": samples,
+            "domain": (f"ST4 input with WAM tail stress, {n_spec} JONSWAP-type seas (deep / 15-60 m) x 6 wind directions relative to the waves (0, 25, -40, 70, 120, 180 deg) x "
+                       f"U10 5-25 m/s and u* 0.15-1 m/s; balance scanned at 77 roughness values in (e^-19.5, e^-0.5); closed={closed} nan={nans}")}
+
+
+BOUNDED = [Bounded("janssen.stress_balance.compiled", _bounded_janssen, "NaN-or-positive and closure of the stress balance at the returned roughness"),
+           Bounded("charnock.implicit_equation", _bounded_charnock, "residual of the implicit Charnock equation at the returned roughness; NaN handling; monotonicity")]
+CONTRACTS = [drag, wu, charnock_point, estimate_point, stress_balance, total_stress, estimate_wiring]
 TRUSTED = ["A-table: exp(x) > 0; sqrt(x) > 0 for x > 0; log is an uninterpreted function (formula contracts are syntactic in log)",
            "np.nan is an opaque non-real value in the model (np.isnan of a real is False: NaN *inputs* are outside the real model and are sampled in the bounded stand-in)"]
 EXPLANATION = ("formula fragments and the NaN-or-positive exit contract of the Janssen estimate are proved; the Charnock fixed point "
